@@ -448,7 +448,7 @@ def run_session(im0, es, observe=None):
         elif kindc == 'eval':
             src = unhx(c[1])
             texts.append(src.rstrip())
-            names = maps[int(c[2])]
+            names = None if c[2] == 'none' else maps[int(c[2])]
             states = []
 
             def vm_factory(*a, **k):
@@ -461,7 +461,7 @@ def run_session(im0, es, observe=None):
             w = Writer(ns, host)
             try:
                 try:
-                    res = im.p.eval(src, names, **kw)
+                    res = im.p.eval(src, names, **kw) if names is not None else im.p.eval(src, **kw)
                     hd = 'ok ' + w.val(res)
                 except RecursionError:
                     outs.append('X RecursionError')
@@ -473,7 +473,7 @@ def run_session(im0, es, observe=None):
             finally:
                 ns.sp.VMState = VM
                 ns.functions.random = real_random
-            outs.append(f'{hd} ;; names {w.val(names)} ;; ops {states[0].ops_evaluated if states else 0}')
+            outs.append(f'{hd} ;; names {w.val(names) if names is not None else "-"} ;; ops {states[0].ops_evaluated if states else 0}')
         elif kindc == 'hostpush':
             names = maps[int(c[1])]
             tgt = names.get(unhx(c[2]))
